@@ -149,6 +149,22 @@ static int mixed(int rounds){ G=dispatch_group_create();
     for(int i=0;i<nf;i++) pthread_join(tf[i],0); for(int i=0;i<nt;i++) pthread_join(tt[i],0); }
   printf("NOTE mixed: signal rounds sent %ld pings\n", atomic_load(&mx_pings));
   _dispatch_verif_atomic_cb = 0; _dispatch_verif_yield_cb = 0; return rounds; }
+// ---- a notification registered while the leave that empties the group is in progress, with the waiters bit pending from an
+// expired timed wait and an empty notification list: it must be submitted (by the leave or by the registration itself)
+static atomic_int wn_ran; static void wn_note(void *c){ (void)c; atomic_fetch_add(&wn_ran,1); }
+static void wn_ycb(const volatile void *addr, const char *func, int line){ (void)line;
+  long d = (char*)addr - (char*)G; if (!G || d < 0 || d >= 96) return; if(strcmp(func,"dispatch_group_leave")) { if(rnd()%16==0) sched_yield(); return; }
+  uint64_t r=rnd()%3; if(r==0) usleep(rnd()%120); else if(r==1) sched_yield(); }
+static void *wn_leaver(void *a){ (void)a; if(rnd()%2) usleep(rnd()%40); dispatch_group_leave(G); return 0; }
+static int wn(int rounds){ G=dispatch_group_create(); cq=dispatch_queue_create("c",DISPATCH_QUEUE_CONCURRENT);
+  _dispatch_verif_yield_cb = wn_ycb; _dispatch_verif_atomic_cb = cb;
+  for(int r=0;r<rounds && !viol;r++){ atomic_store(&wn_ran,0); dispatch_group_enter(G);
+    if(dispatch_group_wait(G,dispatch_time(DISPATCH_TIME_NOW,(int64_t)(20000+rnd()%30000)))==0) fail("dispatch_group_wait returned 0 on an entered group",r,0,0);   // expires: the waiters bit stays
+    pthread_t t; pthread_create(&t,0,wn_leaver,0); if(rnd()%2) usleep(rnd()%60);
+    dispatch_group_notify_f(G,cq,NULL,wn_note); pthread_join(t,0);
+    for(int w=0; w<3000 && !atomic_load(&wn_ran); w++) usleep(1000);
+    if(atomic_load(&wn_ran)!=1) fail("a notification registered while the leave that empties the group was in progress (waiters bit pending, empty list) was not submitted exactly once within 3 s: round/runs",r,atomic_load(&wn_ran),0); }
+  _dispatch_verif_atomic_cb = 0; _dispatch_verif_yield_cb = 0; return rounds; }
 // ---- forced F9 schedule
 static atomic_int in_window, go_on, ran1, ran2; static __thread int is_b;
 static void ycb9(const volatile void *addr, const char *func, int line){ (void)addr;(void)line;
@@ -178,6 +194,7 @@ int main(int argc, char **argv){
   if(!strcmp(mode,"quiet")){ items=quiet(argc>3?atoi(argv[3]):200); }
   else if(!strcmp(mode,"reenter")){ items=reenter(argc>3?atoi(argv[3]):100); }
   else if(!strcmp(mode,"mixed")){ items=mixed(argc>3?atoi(argv[3]):60); }
+  else if(!strcmp(mode,"wn")){ items=wn(argc>3?atoi(argv[3]):300); }
   else { int nthr = argc>3 ? atoi(argv[3]) : 4; nops = argc>4 ? atoi(argv[4]) : 300; use_ga = argc>5 ? atoi(argv[5]) : 0; items=storm(nthr); }
   printf("OFF state 48\n");
   if (viol) printf("ORACLE VIOL seed=%llu %s\n",(unsigned long long)seed,vmsg);
